@@ -326,6 +326,10 @@ def eq(a, b):
         return TRUE
     if is_lit(a) and is_lit(b):
         return TRUE if a.args[0] == b.args[0] else FALSE
+    # a one-bit value compared with 1 is the negation of its comparison with 0
+    for u, w in ((a, b), (b, a)):
+        if w.op == "lit" and w.args[0] == 1 and w.args[0] is not True and u.op == "band" and any(t.op == "lit" and t.args[0] == 1 and t.args[0] is not True for t in u.args if isinstance(t, T)):
+            return not_(eq(u, lit(0)))
     if a.op == "felem" and b.op == "felem" and a.args[0] == b.args[0]:
         return TRUE if a.args[1] == b.args[1] else FALSE      # canonical representatives of one field
     if a.op == "variant" and b.op == "variant":
@@ -503,6 +507,21 @@ def cmp(op, a, b):
         x, y = a.args[0], b.args[0]
         return lit({"lt": x < y, "le": x <= y, "gt": x > y, "ge": x >= y}[op])
     return mk(op, a, b)
+
+
+def bit_select(t, bit):
+    """t = `if bit is set {a} else {b}` for a one-bit integer term `bit`, in any of its spellings and orientations
+    (bit == 1, bit != 0, !(bit == 0), branches swapped under the negated test): returns (a, b) or None"""
+    if not (isinstance(t, T) and t.op == "ite"):
+        return None
+    c, a, b = t.args
+    set_forms = (eq(bit, lit(1)), ne(bit, lit(0)), not_(eq(bit, lit(0))))
+    clr_forms = (eq(bit, lit(0)), ne(bit, lit(1)), not_(eq(bit, lit(1))))
+    if any(c is f for f in set_forms):
+        return (a, b)
+    if any(c is f for f in clr_forms):
+        return (b, a)
+    return None
 
 
 def assume(t, c, truth, _memo=None):
